@@ -123,6 +123,17 @@ def check_program(g, leaf, derived, ctx, rng):
 
     # the leaf itself, again and again
     guarded("recompute_same_object", lambda: x.compute())
+    # the user goes on drawing from the same generator(s): x stays the realization it was
+    import vf.gen as G_
+
+    for gen_, is_rs_ in (G_.RAND_GENS or [])[-2:]:
+        try:
+            G_._rand_draw(gen_, "normal", [0.0, 1.0], [4], [[2, 2]], is_rs_)
+            G_._rand_draw(gen_, "random", [], [3], [[3]], is_rs_)
+            ctx.count("later_draws_from_the_same_generator", 2)
+        except Exception as e:
+            ctx.tab("later_draw_raised", type(e).__name__)
+    guarded("recompute_after_later_draws", lambda: fresh(x).compute())
     guarded("recompute_fresh_collection", lambda: fresh(x).compute())
     guarded("recompute_threads", lambda: fresh(x).compute(scheduler="threads", num_workers=4))
     guarded("raw_graph", lambda: _raw(x))
@@ -249,6 +260,9 @@ def run_one(rng, ctx):
                 seen.add(mech)
                 ctx.violation(kind, msg, case={"choice": desc}, mech=mech)
         return
+    import vf.gen as G_
+
+    G_.RAND_GENS = []
     g = Prog(rng, max_extent=9 if big else 7, max_size=3000, weights=WEIGHTS, nan_prob=0.0)
     leaf = g.add_leaf("random")
     if leaf is None:
@@ -299,6 +313,9 @@ def replay_case(case, ctx):
                 seen.add(mech)
                 ctx.violation(kind, msg, case=case, mech=mech)
         return
+    import vf.gen as G_
+
+    G_.RAND_GENS = []
     try:
         g = Prog.replay(case["steps"])
     except ReplayRefused as e:
